@@ -195,6 +195,30 @@ def gen_history(rng):
     for j in range(n):
         if j != zero_col and not any(G[j * cd:(j + 1) * cd]):
             G[j * cd + rng.randrange(cd)] = 1.0
+    # the property quantifies over (G, A, P) that satisfy the rank assumptions: Rank(A) = p and
+    # Rank([G; A]) = n (the zero-column class: on the other columns; H supplies the rest), with a
+    # margin so that the residual bound is meaningful.  Random sparse data violate this now and then.
+    for attempt in range(40):
+        ok = True
+        if data_class == 'regular':
+            keep = [j for j in range(n) if j != zero_col]
+            rows = [[G[j * cd + i] for j in keep] for i in range(cd)] + [[A[j * p + i] for j in keep] for i in range(p)]
+            rk, ratio = CR.numeric_rank(rows)
+            rka, ratio_a = CR.numeric_rank([[A[j * p + i] for j in range(n)] for i in range(p)]) if p else (0, 1.0)
+            ok = rk == len(keep) and ratio > 0.02 and rka == p and (p == 0 or ratio_a > 0.02)
+            if ok and solver == 'chol2':
+                # chol2 factors S = GG'W^-2 GG + H itself: G alone must have full column rank on those columns
+                rkg, ratio_g = CR.numeric_rank([[G[j * cd + i] for j in keep] for i in range(cd)])
+                ok = rkg == len(keep) and ratio_g > 0.02
+        if ok:
+            break
+        G = gen.sym_columns(rng, dims, n, 1.0)
+        A = gen.rmat(rng, p, n)
+        if zero_col is not None:
+            for i in range(cd):
+                G[zero_col * cd + i] = 0.0
+            for i in range(p):
+                A[zero_col * p + i] = 0.0
     data = {'solver': solver, 'dims': dims, 'mnl': mnl, 'n': n, 'p': p, 'zero_col': zero_col, 'use_H': use_H, 'data_class': data_class,
             'G': {'m': cd, 'n': n, 'v': G, 'sparse': bool(rng.random() < 0.4)},
             'A': {'m': p, 'n': n, 'v': A, 'sparse': bool(rng.random() < 0.35)},
